@@ -1,0 +1,47 @@
+//! Verification hooks, compiled only with `--cfg turmoil_verif`.
+//!
+//! Read-only state dumps (for duplicate detection during exhaustive search and
+//! for the table-leak oracles) plus one configuration override (ephemeral port
+//! range). Nothing here is reachable without the cfg flag.
+
+use std::ops::RangeInclusive;
+
+use crate::{ToIpAddr, CURRENT};
+
+/// Canonical dump of every kernel of the installed `Net`, in host order.
+pub fn verif_dump() -> String {
+    CURRENT.with(|c| {
+        let cell = c.borrow();
+        let net = cell.as_ref().expect("no Net installed");
+        let mut out = String::new();
+        for id in net.fabric.host_ids() {
+            out.push_str(&format!("host {:?}\n", id));
+            net.fabric.kernel(id).verif_dump(&mut out);
+        }
+        out.push_str(&format!("rules={}\n", net.rules.len()));
+        out
+    })
+}
+
+/// `(socket-table entries, binding-index entries, connection-index entries)` of
+/// one host.
+pub fn verif_counts<H: ToIpAddr>(host: H) -> (usize, usize, usize) {
+    CURRENT.with(|c| {
+        let cell = c.borrow();
+        let net = cell.as_ref().expect("no Net installed");
+        let ip = host.try_to_ip_addr(&net.dns).expect("hostname not registered");
+        let id = net.fabric.host_for_ip(ip).expect("no host for ip");
+        net.fabric.kernel(id).verif_counts()
+    })
+}
+
+/// Replace the ephemeral port range of one host (resets the allocator cursor).
+pub fn verif_set_ephemeral_range<H: ToIpAddr>(host: H, range: RangeInclusive<u16>) {
+    CURRENT.with(|c| {
+        let mut cell = c.borrow_mut();
+        let net = cell.as_mut().expect("no Net installed");
+        let ip = host.try_to_ip_addr(&net.dns).expect("hostname not registered");
+        let id = net.fabric.host_for_ip(ip).expect("no host for ip");
+        net.fabric.kernel_mut(id).verif_set_ephemeral_range(range);
+    })
+}
